@@ -9,6 +9,7 @@ from __future__ import annotations
 
 import itertools
 import math
+import os
 import warnings
 
 from vlib import c19_ref as R
@@ -429,6 +430,7 @@ def _rank_shard(res, shard):
                     _out(res, "fail:" + cls)
                     _viol(res, {"kind": mode, "tuple": list(tup), "opts": [[_j(o[0]), o[1]] for o in opts], "cfg": _cfg_json(cfg),
                                 "strictness": strictness, "class": f"{mode}:{cls}",
+                                "rows": [[r[0]] + [_j(x) for x in r[1:]] for r in info.get("rows", [])],
                                 "what": f"{text} | {fmt_rank_case(tup, opts, cfg, strictness)}"})
                 if not fails:
                     _out(res, "ok:" + mode)
@@ -1322,6 +1324,10 @@ def shards(tier):
     for pi in (0, 3, 7):
         out.append(("crit", "bom", pi))
     out += stat_shards(tier)
+    only = os.environ.get("VERIF_C19_ONLY")  # debugging aid (mutant runs): comma separated shard kinds
+    if only:
+        keep = set(only.split(","))
+        out = [s for s in out if s[0] in keep or (s[0] == "rank" and s[6] in keep)]
     return out
 
 
@@ -1371,6 +1377,7 @@ KNOWN_PATTERNS = (
     "rank_models-cutoff-equality-excluded",
     "is_strictness_fulfilled-rse-shadowed-by-rse_kind-series",
     "is_strictness_fulfilled-fzg-omega-sigma-nan-test-reads-theta-rows",
+    "summarize_tool-lrt-tests-against-start-model-not-modelentry-parent",
 )
 
 
@@ -1383,6 +1390,23 @@ def classify(w):
         # rank_models: `if ref_value - rank_value <= cutoff: continue` although the documentation
         # only excludes candidates BELOW the cut-off
         return KNOWN_PATTERNS[0]
+    if k == "best" and w.get("cfg", [None] * 5)[0] == "lrt" and w["cfg"][4] == "chain" and w.get("rows") and (
+            cls.startswith("best:ranked-ineligible:lrt") or cls.startswith("best:excluded-eligible:lrt")):
+        # tools.common.summarize_tool lists ModelEntry.parent as parent_model but calls rank_models without
+        # parent_dict: recognised when the table is exactly the reference ranking with base as everybody's parent
+        try:
+            tup = tuple(w["tuple"])
+            opts = tuple((_uj(o[0]), o[1]) for o in w["opts"])
+            rt, bt, co, pen, _pm = _cfg_from_json(w["cfg"])
+            cor = corpus()
+            strict_ok = [opt_strict(i, o, w["strictness"]) for i, o in zip(tup, opts)]
+            ref = R.ref_rank([cor[i][1] for i in tup], [o[0] for o in opts], strict_ok, rt, bt, co,
+                             list(pen) if pen else None, parents_of("base", len(tup) - 1))
+            rows = [(r[0],) + tuple(_uj(x) for x in r[1:]) for r in w["rows"]]
+            if not R.check_table(ref, rows):
+                return KNOWN_PATTERNS[3]
+        except Exception:
+            return None
     if k == "strict":
         names = set(R.names_in(w["expr"]))
         if (cls.startswith("strictness-raises:ValueError") and "rse" in names
